@@ -89,6 +89,33 @@ fn read_len(cigar: &[(char, u64)]) -> u64 {
         .sum()
 }
 
+/// last position of the interval Reader::query's `intersects` tests: the decoded RecordBuf's
+/// alignment_end -- start + reference span of the CIGAR - 1, and the start itself for a record
+/// without CIGAR (a placed read flagged unmapped covers its POS only, the SAM convention), whatever
+/// its read length (which is what the CRAM record and the index use: `end`)
+fn hit_end(x: &RecSpec) -> u64 {
+    if x.cigar.is_empty() { x.start } else { x.end }
+}
+
+/// a placed record without bases: reference id and POS, no CIGAR, SEQ `*` (CRAM end = start - 1)
+fn no_bases(x: &RecSpec) -> bool {
+    x.rid.is_some() && x.cigar.is_empty() && x.read_len == 0
+}
+
+/// the end the statement's "covered span" uses: a placed record occupies at least its start (the
+/// writer's convention since b02b368)
+fn idx_end(x: &RecSpec) -> u64 {
+    x.end.max(x.start)
+}
+
+/// input class of the finding cram-index-placed-record-without-bases-span-underflow: a
+/// multi-reference slice holds a placed record without bases
+pub const SPAN_CLASS_TAG: &str = "cram-index-placed-record-without-bases-span-underflow";
+
+fn span_class_slice(recs: &[RecSpec]) -> bool {
+    !recs.is_empty() && is_multi(recs) && recs.iter().any(no_bases)
+}
+
 fn fmt_cigar(c: &[(char, u64)]) -> String {
     if c.is_empty() {
         return "*".into();
@@ -211,23 +238,30 @@ fn sam_text(spec: &FileSpec) -> Vec<u8> {
                 }
             }
             let qual: String = (0..seq.len()).map(|_| (b'0' + rng.below(40) as u8) as char).collect();
-            (String::from_utf8(seq).unwrap(), qual)
+            if seq.is_empty() { ("*".to_string(), "*".to_string()) } else { (String::from_utf8(seq).unwrap(), qual) }
         } else {
             ("*".to_string(), "*".to_string())
         };
         match r.rid {
-            Some(rid) if r.cigar.is_empty() => s.push_str(&format!(
-                "r{i}\t{}\tsq{rid}\t{}\t0\t*\t*\t0\t0\t{seq}\t{qual}\n",
-                if rng.chance(1, 3) { 20 } else { 4 },
-                r.start
-            )),
-            Some(rid) => s.push_str(&format!(
-                "r{i}\t{}\tsq{rid}\t{}\t{}\t{}\t*\t0\t0\t{seq}\t{qual}\n",
-                if rng.chance(1, 3) { 16 } else { 0 },
-                r.start,
-                rng.below(61),
-                fmt_cigar(&r.cigar)
-            )),
+            Some(rid) if r.cigar.is_empty() => {
+                // placed, flagged unmapped: alone, reverse, or the unmapped mate of a pair placed at its
+                // mate's position (first / last segment, mate reverse)
+                let flag = *rng.pick(&[4u32, 4, 20, 69, 133, 165, 77]);
+                let (rnext, pnext) = if flag & 1 != 0 && flag & 8 == 0 { ("=".to_string(), r.start) } else { ("*".to_string(), 0) };
+                s.push_str(&format!("r{i}\t{flag}\tsq{rid}\t{}\t0\t*\t{rnext}\t{pnext}\t0\t{seq}\t{qual}\n", r.start))
+            }
+            Some(rid) => {
+                // mapped: forward / reverse, secondary, supplementary, paired with a mapped or an
+                // unmapped mate
+                let flag = *rng.pick(&[0u32, 0, 16, 16, 256, 272, 2048, 2064, 67, 131, 73, 89]);
+                let (rnext, pnext) = if flag & 1 != 0 { ("=".to_string(), r.start) } else { ("*".to_string(), 0) };
+                s.push_str(&format!(
+                    "r{i}\t{flag}\tsq{rid}\t{}\t{}\t{}\t{rnext}\t{pnext}\t0\t{seq}\t{qual}\n",
+                    r.start,
+                    rng.below(61),
+                    fmt_cigar(&r.cigar)
+                ))
+            }
             None => s.push_str(&format!("r{i}\t4\t*\t0\t255\t*\t*\t0\t0\t{seq}\t{qual}\n")),
         }
     }
@@ -469,7 +503,7 @@ fn expected_index(conts: &[Cont], chunks: &[&[RecSpec]]) -> Vec<Entry> {
                 None => (None, 0),
                 Some(_) => {
                     let lo = recs.iter().filter(|r| r.rid == rid).map(|r| r.start).min().unwrap();
-                    let hi = recs.iter().filter(|r| r.rid == rid).map(|r| r.end).max().unwrap();
+                    let hi = recs.iter().filter(|r| r.rid == rid).map(idx_end).max().unwrap();
                     (Some(lo), hi - lo + 1)
                 }
             };
@@ -603,7 +637,9 @@ fn run_idx(c: &Case) -> Obs {
         IndexResult::Ok(i) => i,
         IndexResult::Err(k) => return Obs::fail(format!("I=Err:{k}"), "cram-index-error", k.clone()),
         IndexResult::Panic(m) => {
-            let tag = if has_multiref_slice_with_bases(&chunks) && m.contains("invalid reference sequence name") {
+            let tag = if chunks.iter().any(|r| span_class_slice(r)) {
+                SPAN_CLASS_TAG
+            } else if has_multiref_slice_with_bases(&chunks) && m.contains("invalid reference sequence name") {
                 "cram-index-multiref-slice-panics"
             } else {
                 "cram-index-panic"
@@ -649,7 +685,8 @@ fn run_idx(c: &Case) -> Obs {
                 None
             };
             if let Some(f) = field {
-                fail(&format!("crai-entry-wrong-{f}"), format!("got {} want {}", fmt_entries(&[*g]), fmt_entries(&[*e])));
+                let tag = if f == "span" && chunks.iter().any(|r| span_class_slice(r)) { SPAN_CLASS_TAG.to_string() } else { format!("crai-entry-wrong-{f}") };
+                fail(&tag, format!("got {} want {}", fmt_entries(&[*g]), fmt_entries(&[*e])));
             }
         }
     }
@@ -845,7 +882,7 @@ fn run_qry(c: &Case) -> Obs {
             (0..n)
                 .filter(|&i| {
                     let x = &b.spec.recs[i];
-                    x.rid == Some(r) && x.start <= rh && rl <= x.end
+                    x.rid == Some(r) && x.start <= rh && rl <= hit_end(x)
                 })
                 .collect()
         } else {
@@ -1027,6 +1064,20 @@ fn gen_spec(rng: &mut Rng, flavour: u64) -> FileSpec {
         v.sort_by_key(|r| r.start);
         recs.extend(v);
     }
+    // mixed files: some of the mapped records become placed reads flagged unmapped (no CIGAR; the CRAM
+    // record and the index cover start .. start + read length - 1, a query hits POS only)
+    if !placed_file && flavour % 5 == 2 {
+        let p = if rng.chance(1, 2) { 2 } else { 4 };
+        for r in recs.iter_mut() {
+            if rng.chance(1, p) {
+                let plen = rng.range(1, 8).min(ref_lens[r.rid.unwrap()] - r.start + 1);
+                r.cigar = vec![];
+                r.has_seq = false;
+                r.read_len = plen;
+                r.end = r.start + plen - 1;
+            }
+        }
+    }
     let unmapped = match rng.below(4) {
         0 => 0,
         1 => 1,
@@ -1098,6 +1149,36 @@ fn gen_regions(rng: &mut Rng, spec: &FileSpec, count: usize) -> String {
     out.join(";")
 }
 
+/// files with placed records WITHOUT bases (flag 0x4, RNAME/POS, SEQ `*`): some of the placed reads of
+/// a mixed file lose their bases, some references get such a record at POS 1, slices are small so that
+/// the record is often alone on its reference in a multi-reference slice; per_slice >= n gives
+/// single-reference slices when one reference is declared.  Index kinds only.
+pub fn gen_spec_nobases(rng: &mut Rng, i: u64) -> FileSpec {
+    let mut spec = gen_spec(rng, i * 5 + 2 + if i % 7 == 3 { 5 } else { 0 });
+    for r in spec.recs.iter_mut() {
+        if r.rid.is_some() && r.cigar.is_empty() && rng.chance(1, 2) {
+            r.read_len = 0;
+            r.end = r.start - 1;
+        }
+    }
+    for rid in 0..spec.ref_lens.len() {
+        if rng.chance(1, 3) {
+            let at = spec.recs.iter().position(|r| r.rid.is_none() || r.rid >= Some(rid)).unwrap_or(spec.recs.len());
+            let start = if rng.chance(2, 3) { 1 } else { spec.recs.get(at).filter(|r| r.rid == Some(rid)).map(|r| r.start).unwrap_or(1) };
+            spec.recs.insert(at, RecSpec { rid: Some(rid), start, end: start - 1, has_seq: false, cigar: vec![], read_len: 0 });
+        }
+    }
+    let n = spec.recs.len() as u64;
+    spec.per_slice = match rng.below(6) {
+        0 => 1,
+        1 | 2 => 2,
+        3 => 3,
+        4 => rng.range(1, n.max(1)),
+        _ => 10_000,
+    } as usize;
+    spec
+}
+
 fn push_file(rng: &mut Rng, w: &mut CaseWriter, spec: &FileSpec, nreg: usize) {
     let repo = repository(spec);
     let (p0, layout) = match write_cram(spec, &repo).and_then(|b| walk(&b)) {
@@ -1115,8 +1196,7 @@ fn push_file(rng: &mut Rng, w: &mut CaseWriter, spec: &FileSpec, nreg: usize) {
     let mut a = base.clone();
     a.push(rng.below(3).to_string());
     w.push("idx", a);
-    if spec.recs.iter().any(|r| r.rid.is_some() && r.cigar.is_empty()) {
-        // placed unmapped records: whether they "intersect" a region is not fixed by the statement
+    if nreg == 0 || spec.recs.iter().any(no_bases) {
         return;
     }
     let mut a = base;
@@ -1132,6 +1212,10 @@ fn generate(rng: &mut Rng, tier: &str, w: &mut CaseWriter) {
     for i in 0..nfiles {
         let spec = gen_spec(rng, i);
         push_file(rng, w, &spec, 15);
+    }
+    for i in 0..(if thorough { 3000 } else { 160 }) {
+        let spec = gen_spec_nobases(rng, i);
+        push_file(rng, w, &spec, 0);
     }
     c19_multi::generate_multi(rng, thorough, w);
     c19_async::generate_async(rng, thorough, w);
